@@ -278,6 +278,29 @@ func checkC09(p *core.Program, r *core.Report) {
 		}
 	}
 
+	// arguments of the report: (remote SKI of this connection, the id that was just stored)
+	fSKI := p.Field("ship", "ShipConnection", "remoteSKI")
+	core.EachInstr(h, func(in ssa.Instruction) {
+		if !core.IsInvokeOf(in, mReport) {
+			return
+		}
+		c := core.Common(in)
+		f0, _ := core.LoadedField(c.Args[0])
+		f1, _ := core.LoadedField(c.Args[1])
+		okID := f1 == fID
+		if !okID {
+			if u, ok := core.Canon(c.Args[1]).(*ssa.UnOp); ok && u.Op == token.MUL {
+				okID = true // *presented
+			}
+		}
+		key := hn + " report arguments"
+		if f0 == fSKI && fSKI != nil && okID {
+			r.OK(R1, key, p.Pos(in.Pos()), "ReportServiceShipID(remoteSKI, presented/stored id)")
+		} else {
+			r.Fail(R1, key, p.Pos(in.Pos()), "the SHIP ID report does not pass (this connection's SKI, the presented SHIP ID): the application stores the id under a wrong key or stores a wrong id")
+		}
+	})
+
 	// R2
 	ctor := p.Func("ship", "NewConnectionHandler")
 	for _, s := range core.Sites(shipFns, func(in ssa.Instruction) bool { return core.IsFieldStore(in, fID) }) {
@@ -297,6 +320,28 @@ func checkC09(p *core.Program, r *core.Report) {
 		}
 	}
 	r.Floor(R2, 2)
+
+	// hub forwards the report unchanged
+	if hr := p.Method("hub", "Hub", "ReportServiceShipID"); hr != nil {
+		mUp := p.IfaceMethod("api", "HubReaderInterface", "ServiceShipIDUpdate")
+		n := 0
+		core.EachInstr(hr, func(in ssa.Instruction) {
+			if !core.IsInvokeOf(in, mUp) {
+				return
+			}
+			n++
+			c := core.Common(in)
+			key := "hub.ReportServiceShipID forwards (ski, shipID)"
+			if core.Canon(c.Args[0]) == ssa.Value(hr.Params[1]) && core.Canon(c.Args[1]) == ssa.Value(hr.Params[2]) {
+				r.OK(R3, key, p.Pos(in.Pos()), "ServiceShipIDUpdate(ski, shipID)")
+			} else {
+				r.Fail(R3, key, p.Pos(in.Pos()), "the hub does not forward the reported (SKI, SHIP ID) pair unchanged to the application")
+			}
+		})
+		if n == 0 {
+			r.Fail(R3, "hub.ReportServiceShipID forwards (ski, shipID)", p.Pos(hr.Pos()), "the hub never tells the application the reported SHIP ID")
+		}
+	}
 
 	// R3
 	if ctor == nil {
